@@ -327,3 +327,57 @@ def string_only_methods(tree: Tree, fn: FuncInfo) -> set[str]:
 def require(cond: bool, what: str) -> None:
     if not cond:
         raise AnalysisError(what)
+
+
+# --------------------------------------------------------------------------- R-SYMPAIR
+
+SYMBOL_CTORS = {"sympy.Symbol": "Symbol", "sympy.symbols": "symbols", "sympy.IndexedBase": "IndexedBase", "sympy.Dummy": "Dummy"}
+
+
+def _skeleton(node: ast.AST) -> str | None:
+    if isinstance(node, ast.Constant) and isinstance(node.value, str):
+        return node.value
+    if isinstance(node, ast.JoinedStr):
+        return "".join(str(v.value) if isinstance(v, ast.Constant) else "{}" for v in node.values)
+    return None
+
+
+def symbol_sites(tree: Tree, module_prefixes: Iterable[str]) -> list[dict]:
+    """Every symbol construction (``sp.Symbol/symbols/IndexedBase/Dummy``) in the given
+    modules: function, kind, name skeleton (f-string placeholders -> ``{}``), assumptions."""
+    from .terms import expand_symbols
+
+    out = []
+    prefixes = tuple(module_prefixes)
+    for q, fn in sorted(tree.funcs.items()):
+        if not q.startswith(prefixes):
+            continue
+        for call, callee in tree.calls_in(fn, nested=False):
+            if callee not in SYMBOL_CTORS or not call.args:
+                continue
+            name_node = call.args[0]
+            skel = _skeleton(name_node)
+            if skel is None and isinstance(name_node, ast.Name):
+                # name built in a local variable first
+                rd = RD(fn.node)
+                defs = rd.reaching(name_node)
+                if len(defs) == 1:
+                    d = next(iter(defs))
+                    if d.value is not None:
+                        skel = _skeleton(d.value)
+            assumptions = {k.arg: unparse(k.value) for k in call.keywords if k.arg and k.arg not in {"shape", "cls", "seq"}}
+            star = any(k.arg is None for k in call.keywords)
+            kind = SYMBOL_CTORS[callee]
+            names = [skel]
+            if kind == "symbols" and skel is not None and "{}" not in skel:
+                names = expand_symbols(skel)
+            for nm in names:
+                out.append({
+                    "fn": q,
+                    "node": call,
+                    "kind": "Symbol" if kind == "symbols" else kind,
+                    "skeleton": nm,
+                    "assumptions": assumptions,
+                    "star_kwargs": star,
+                })
+    return out
